@@ -362,3 +362,15 @@ def make_type_nt(schema, name, **kw):
 
     with NoTracing():
         return make_type(schema, name, **kw)
+
+
+@contextlib.contextmanager
+def untraced():
+    """Run a block of purely concrete code (third-party codecs on menu values) without the symbolic tracer."""
+    if REPLAY:
+        yield
+        return
+    from crosshair.tracers import NoTracing  # type: ignore
+
+    with NoTracing():
+        yield
